@@ -29,6 +29,11 @@ pub enum Derive {
     Prepend(String),
     /// replace the character at the position (fraction) by this one
     Replace(u16, char),
+    /// XOR the ASCII characters at `pos, pos+stride, ...` (`count` of them) with the same 7-bit
+    /// delta: differences that a block-wise or word-wise comparison could cancel against each other
+    XorAt { pos: u16, stride: u8, count: u8, delta: u8 },
+    /// exchange the characters at two positions (fractions)
+    Swap(u16, u16),
 }
 
 #[derive(Clone, Debug, Serialize, Deserialize)]
@@ -58,6 +63,31 @@ fn derive(base: &str, d: &Derive) -> String {
             }
             let k = idx(*f, n);
             base.chars().enumerate().map(|(i, x)| if i == k { *c } else { x }).collect()
+        },
+        Derive::XorAt { pos, stride, count, delta } => {
+            let mut v: Vec<char> = base.chars().collect();
+            if v.is_empty() {
+                return String::new();
+            }
+            let stride = usize::from(*stride).max(1);
+            let span = stride * usize::from((*count).max(1) - 1);
+            let start = if v.len() > span { idx(*pos, v.len() - span) } else { 0 };
+            for j in 0..usize::from(*count) {
+                if let Some(c) = v.get_mut(start + j * stride) {
+                    if c.is_ascii() {
+                        *c = char::from((*c as u8) ^ (delta & 0x7f));
+                    }
+                }
+            }
+            v.into_iter().collect()
+        },
+        Derive::Swap(a, b) => {
+            let mut v: Vec<char> = base.chars().collect();
+            if v.len() >= 2 {
+                let (i, j) = (idx(*a, v.len()), idx(*b, v.len()));
+                v.swap(i, j);
+            }
+            v.into_iter().collect()
         },
     }
 }
@@ -243,6 +273,7 @@ fn base_name() -> BoxedStrategy<String> {
     prop_oneof![
         5 => any::<u16>().prop_map(|i| INTERNED[idx(i, INTERNED.len())].to_string()),
         3 => "[A-Za-z_][A-Za-z0-9_-]{0,40}",
+        2 => "[A-Z_]{3,8}_[A-Z0-9_]{10,24}_[A-Z0-9_]{10,30}",
         2 => prop_oneof![Just(14usize), Just(15), Just(16), Just(17), Just(18), Just(30), Just(31), Just(32), Just(33), Just(34), Just(47), Just(48), Just(49)]
             .prop_flat_map(|n| proptest::collection::vec(prop_oneof![Just('a'), Just('Z'), Just('_'), Just('k'), Just('K'), Just('0'), proptest::char::range('a', 'z')], n).prop_map(|v| v.into_iter().collect::<String>())),
         1 => Just(String::new()),
@@ -261,6 +292,9 @@ fn derive_strategy() -> BoxedStrategy<Derive> {
         2 => any::<u16>().prop_map(Derive::Truncate),
         2 => prop_oneof![Just("_".to_string()), Just("\u{0}".to_string()), Just("\u{0}\u{0}".to_string()), Just("\u{ff}".to_string()), "[a-zA-Z_]{1,3}"].prop_map(Derive::Append),
         2 => prop_oneof![Just("REDIRECT_".to_string()), Just("HTTP_".to_string()), Just("X_".to_string()), Just("_".to_string()), Just("REDIRECT_REDIRECT_".to_string()), Just("ORIG_".to_string()), Just("\u{0}".to_string()), "[a-zA-Z_]{1,3}"].prop_map(Derive::Prepend),
+        2 => (any::<u16>(), prop_oneof![Just(1u8), Just(2), Just(4), Just(8), Just(16), Just(32), 1u8..=40], 2u8..=4, prop_oneof![Just(1u8), Just(3), Just(0x20), Just(0x1f), 1u8..=0x7f])
+            .prop_map(|(pos, stride, count, delta)| Derive::XorAt { pos, stride, count, delta }),
+        1 => (any::<u16>(), any::<u16>()).prop_map(|(a, b)| Derive::Swap(a, b)),
         2 => (any::<u16>(), prop_oneof![Just('_'), Just('-'), Just('k'), Just('K'), Just('\u{212a}'), Just('ı'), Just('ä'), Just('Ä'), Just('@'), Just('`'), Just('['), Just('{'), any::<char>()]).prop_map(|(f, c)| Derive::Replace(f, c)),
     ]
     .boxed()
